@@ -53,7 +53,7 @@ def gen_cases(tier, seed):
             continue
         for strict in (0, 1):
             for std in ((2020,) if inv.callid != 2 else (2006, 2013, 2020)):
-                for sds in ((2,) if inv.callid != 29 else (1, 2, 3)):
+                for sds in ((2,) if inv.callid != 29 else (1, 2, 3, 4)):
                     cfgv = list(cl.DEFAULT_CFG)
                     for s, v in inv.cfg.items():
                         cfgv[s] = v
@@ -62,10 +62,12 @@ def gen_cases(tier, seed):
                     if strict:
                         cfgv[cl.TOL_PAD] = 0
                         cfgv[cl.IGN_ZERO] = 0
-                    h0 = cl.H(cfgv)
+                    from harness.callreg_ext import DIDS
+                    dt = None if inv.callid != 29 else DIDS + [(0xFE, -1), (0xFFFFFE, -1)]   # read-all codecs reachable with 1- and 3-byte snapshot DIDs
+                    h0 = cl.H(cfgv, dids=dt)
                     for _ in range(reps):
                         for reply, sd, rs, tag in respspec.gen(inv, h0.cfg, rnd, nrec):
-                            c = cl.H(cfgv).call(inv.callid, inv.args, inv.blobs, [(10, reply)]).case(5000, '%s / %s' % (inv.name, tag))
+                            c = cl.H(cfgv, dids=dt).call(inv.callid, inv.args, inv.blobs, [(10, reply)]).case(5000, '%s / %s' % (inv.name, tag))
                             EXPECT[c.line()] = sd
                             yield c
 
